@@ -22,6 +22,17 @@ open Spec
 theorem cfg_good : cfg.Good := by
   constructor <;> decide
 
+/-- The four status regexes, byte for byte, as the imported module compiled them:
+    `(?m)^Uid:\t(\d+)\t(\d+)\t(\d+)`, `(?m)^Gid:…`, `(?m)^Threads:\t(\d+)`, `ctxt_switches:\t(\d+)`.
+    ANY edit of a pattern (a relaxed separator such as `\s*`, a dropped anchor, another digit
+    class) breaks this obligation even when the translator cannot put the new pattern into the
+    structural form the model understands. -/
+theorem cfg_status_patterns :
+    Gen.C06.uidPatternSrc = [40, 63, 109, 41, 94] ++ keyUid ++ [58] ++ [92, 116, 40, 92, 100, 43, 41, 92, 116, 40, 92, 100, 43, 41, 92, 116, 40, 92, 100, 43, 41]
+    ∧ Gen.C06.gidPatternSrc = [40, 63, 109, 41, 94] ++ keyGid ++ [58] ++ [92, 116, 40, 92, 100, 43, 41, 92, 116, 40, 92, 100, 43, 41, 92, 116, 40, 92, 100, 43, 41]
+    ∧ Gen.C06.thrPatternSrc = [40, 63, 109, 41, 94] ++ keyThreads ++ [58] ++ [92, 116, 40, 92, 100, 43, 41]
+    ∧ Gen.C06.ctxPatternSrc = ctxWord ++ [58] ++ [92, 116, 40, 92, 100, 43, 41] := by decide
+
 /-! ## `/proc/<pid>/stat` -/
 
 /-- `_parse_stat_file` inverts the kernel's renderer for EVERY comm byte string (spaces,
@@ -496,9 +507,10 @@ theorem C06_status_tokens_digits_only (file : Bytes) :
     ∧ ((∃ v, numCtxSwitches cfg file = .ok v) ∨ numCtxSwitches cfg file = .error .indexError
         ∨ numCtxSwitches cfg file = .error .notImplementedError) := by
   have ids : ∀ (anch : Bool) (key data : Bytes),
-      (∃ v, ids3 anch key data = .ok v) ∨ ids3 anch key data = .error .indexError := by
+      (∃ v, ids3 anch key Sep.tabOne data = .ok v) ∨ ids3 anch key Sep.tabOne data = .error .indexError := by
     intro anch key data
     unfold ids3
+    rw [findAllS_tabOne]
     cases hf : findAll anch key 3 data with
     | nil => exact Or.inr rfl
     | cons gs rest =>
@@ -510,8 +522,11 @@ theorem C06_status_tokens_digits_only (file : Bytes) :
         obtain ⟨nb, hb⟩ := decOf_digits b (hd b (by simp)).1 (hd b (by simp)).2
         obtain ⟨nc, hc⟩ := decOf_digits c (hd c (by simp)).1 (hd c (by simp)).2
         exact Or.inl ⟨(na, nb, nc), by simp [ha, hb, hc, bind, Except.bind, pure, Except.pure]⟩
-  refine ⟨ids _ _ _, ids _ _ _, ?_, ?_⟩
+  refine ⟨?_, ?_, ?_, ?_⟩
+  · unfold uids; rw [cfg_good.uidSep]; exact ids _ _ _
+  · unfold gids; rw [cfg_good.gidSep]; exact ids _ _ _
   · unfold numThreads
+    rw [cfg_good.thrSep, findAllS_tabOne]
     cases hf : findAll cfg.thrAnchored cfg.thrKey 1 (readStatus cfg file) with
     | nil => exact Or.inr rfl
     | cons gs rest =>
@@ -522,6 +537,7 @@ theorem C06_status_tokens_digits_only (file : Bytes) :
         obtain ⟨na, ha⟩ := decOf_digits a (hd a (by simp)).1 (hd a (by simp)).2
         exact Or.inl ⟨na, by simp [ha]⟩
   · unfold numCtxSwitches
+    rw [cfg_good.ctxSep, findAllS_tabOne]
     cases hf : findAll cfg.ctxAnchored cfg.ctxKey 1 (readStatus cfg file) with
     | nil => exact Or.inr (Or.inr rfl)
     | cons gs rest =>
